@@ -2,6 +2,8 @@ import Driver.Util
 import Driver.HT1
 import Driver.HT2
 import Driver.HT4
+import Driver.HGel
+import Driver.HRefl
 import Clem.Model.Compose
 import Clem.Model.T2Mon
 
@@ -53,10 +55,18 @@ def parseWorld (j : Json) : R (World Float) := do
   let last ← arrMapM (← fldArr j "last") (fun p => do
     let a ← p.getArr?
     pure (toStr (← strAt a 0), ← optIntJ (← arrAt a 1)))
-  pure ⟨gs, eps, last, ← fldS j "agent"⟩
+  pure ⟨gs, eps, last, ← fldS j "agent", (fldD j "reflFlag" (Json.bool false)) == Json.bool true⟩
 
 def ownerOf (n : Nat) : Clem.T3.Owner :=
   match n with | 0 => .agent | 1 => .world | 2 => .any | _ => .other
+
+/-- `null` = scheduler off; else the budgets `_derive_budgets` produced (missing key = `null`) -/
+def parseSched (j : Json) : R (Option Clem.Sched.Budgets) :=
+  match j with
+  | Json.null => pure none
+  | b => do
+    pure (some { wall := ← fldOptInt b "wall_ms", t1Iters := ← fldOptInt b "t1_iters", t1Pops := ← fldOptInt b "t1_pops",
+                 t2K := ← fldOptInt b "t2_k", t3Ops := ← fldOptInt b "t3_ops", quantum := ← fldOptInt b "quantum_ms" })
 
 def parseCfg (j : Json) : R (Cfg Float) := do
   let cds ← arrMapM (← fldArr j "cooldowns") (fun p => do
@@ -72,7 +82,13 @@ def parseCfg (j : Json) : R (Cfg Float) := do
          t4Enabled := ← fldBool j "t4Enabled", capL2 := ← fldFloat j "capL2", capNov := ← fldFloat j "capNov",
          churn := ← fldInt j "churn", cooldowns := cds, every := ← fldInt j "every",
          sqrt := Float.sqrt, thr := Driver.HT4.thr, wmin := ← fldFloat j "wmin", wmax := ← fldFloat j "wmax",
-         t2CacheOn := ← fldBool j "t2CacheOn", orchCacheOn := ← fldBool j "orchCacheOn", bust := ← fldBool j "bust" }
+         t2CacheOn := ← fldBool j "t2CacheOn", orchCacheOn := ← fldBool j "orchCacheOn", bust := ← fldBool j "bust",
+         gel := ← Driver.HGel.cfgOf (← fld j "gel"), pw := Driver.HGel.pw,
+         doMerge := ← fldBool j "doMerge", doSplit := ← fldBool j "doSplit", doPromo := ← fldBool j "doPromo",
+         capMerge := ← fldInt j "capMerge", capSplit := ← fldInt j "capSplit", capPromo := ← fldInt j "capPromo",
+         hyb := ← Driver.HT2.parseH (← fld j "hyb"), qual := ← Driver.HT2.parseQ (← fld j "qual"),
+         refl := ← Driver.HRefl.parseCfg (← fld j "refl"),
+         sched := ← parseSched (fldD j "sched" Json.null) }
 
 def parseDelta (j : Json) : R (Clem.T4.Delta Float) := do
   let a ← j.getArr?
@@ -96,8 +112,17 @@ def parseOp (j : Json) : R Clem.T3.Op := do
 def parseOrc (j : Json) : R (Oracles Float) := do
   let qs ← arrMapM (← fldArr j "queries") (fun q => do
     let cos ← arrMapM (← fldArr q "cos") (fun x => do floatOfBits (← x.getStr?))
-    pure (⟨← fldS q "q", cos, ← Driver.HT2.parseScoreTbl q "cscore"⟩ : QOracle Float))
-  pure ⟨qs, ← fldInt j "nowUs"⟩
+    let lex ← match fldD q "lex" Json.null with
+      | Json.null => pure []
+      | _ => Driver.HT2.parseScoreTbl q "lex"
+    pure (⟨← fldS q "q", cos, ← Driver.HT2.parseScoreTbl q "cscore", lex⟩ : QOracle Float))
+  let merges ← match fldD j "merges" Json.null with
+    | Json.null => pure []
+    | m => arrMapM (← m.getArr?) Driver.HGel.mergeOf
+  let splits ← match fldD j "splits" Json.null with
+    | Json.null => pure []
+    | m => arrMapM (← m.getArr?) Driver.HGel.splitOf
+  pure ⟨qs, ← fldInt j "nowUs", merges, splits⟩
 
 def parseTurn (j : Json) : R (TurnIn Float × Oracles Float) := do
   let t : TurnIn Float :=
@@ -117,7 +142,7 @@ def parseState (j : Json) : R (State Float) := do
   let w ← arrMapM (← fldArr j "w") (fun p => do
     let a ← p.getArr?
     pure ((toStr (← strAt a 0), toStr (← strAt a 1), toStr (← strAt a 2)), ← floatAt a 3))
-  pure ⟨w, ← parseVer (fldD j "ver" Json.null), [], []⟩
+  pure ⟨w, ← parseVer (fldD j "ver" Json.null), [], [], [], none, 0⟩
 
 structure Req where
   w : World Float
@@ -183,6 +208,14 @@ def t2Rec (echo : Json) (turn : Int) (c : Cfg Float) (o : TurnOut Float) : Json 
     ("cache_misses", jNat (if c.t2CacheOn then max 1 legacyMiss else legacyMiss)),
     ("backend", jStr "inmemory"), ("backend_fallback", jBool false),
     ("hybrid_used", jBool o.t2.hybridUsed)] ++
+    (match o.hinfo with
+     | .absent => []
+     | .kc k => [("hybrid", jObj [("k_considered", jInt k)])]
+     | .full k re m => [("hybrid", jObj [("anchor_top_m", jInt m), ("walk_hops", jInt c.hyb.hops),
+          ("edge_threshold", jF c.hyb.thresh), ("lambda_graph", jF c.hyb.lam),
+          ("damping", jF (if c.hyb.hops == 2 then c.hyb.damping else 0.0)),
+          ("degree_norm", fldD echo "degreeNorm" Json.null), ("k_max", jInt c.hyb.kMax),
+          ("k_considered", jInt k), ("k_reordered", jNat re)])]) ++
     (if c.orchCacheOn then [("cache_hit", jBool o.orchHit), ("cache_size", jNat o.orchSize)] else []))
 
 def reasonsOf (r : Clem.T4.Result Float) : List String :=
@@ -214,6 +247,52 @@ def applyRec (echo : Json) (turn : Int) (a : Clem.Apply.Out) : Json :=
      | _, Json.null => []
      | _, v => [("now", v)]))
 
+def reasonStr : Clem.Sched.YReason → String
+  | .wall => "WALL_MS" | .t1Iters => "BUDGET_T1_ITERS" | .t1Pops => "BUDGET_T1_POPS" | .t2K => "BUDGET_T2_K"
+  | .t3Ops => "BUDGET_T3_OPS" | .quantum => "QUANTUM_EXCEEDED"
+
+def stageStr : Clem.Sched.Stage → String
+  | .T1 => "T1" | .T2 => "T2" | .T3 => "T3" | .T4 => "T4" | .Apply => "Apply"
+
+def optKV (k : String) : Option Int → List (String × Json)
+  | some v => [(k, jInt v)]
+  | none => []
+
+/-- the scheduler.jsonl event of a yielded turn (without the volatile `ms` / `consumed.ms`) -/
+def schedRec (echo : Json) (t : TurnIn Float) (c : Cfg Float) (o : TurnOut Float) : List Json :=
+  match o.yielded, c.sched with
+  | some (st, r), some b =>
+    let consumed : List (String × Json) := match st with
+      | .T1 => [("t1_iters", jInt o.t1.iters), ("t1_pops", jNat o.t1.pops)]
+      | .T2 => [("t2_k", jNat o.t2.used.length)]
+      | .T3 => [("t3_ops", jNat o.planOps0.length)]
+      | _ => []
+    [jObj [("turn", jInt t.turnId), ("slice", jInt (t.sliceIdxPrev + 1)), ("agent", fldD echo "agent" Json.null),
+           ("policy", fldD echo "policy" Json.null), ("reason", jStr (reasonStr r)), ("enforced", jBool true),
+           ("stage_end", jStr (stageStr st)),
+           ("quantum_ms", match b.quantum with | some q => jInt q | none => Json.null),
+           ("wall_ms", match b.wall with | some q => jInt q | none => Json.null),
+           ("budgets", jObj (optKV "t1_pops" b.t1Pops ++ optKV "t1_iters" b.t1Iters ++ optKV "t2_k" b.t2K ++
+                             optKV "t3_ops" b.t3Ops ++ optKV "wall_ms" b.wall)),
+           ("consumed", jObj consumed), ("queued", jArr [])]]
+  | _, _ => []
+
+def turnRecY (echo : Json) (t : TurnIn Float) (w : World Float) (c : Cfg Float) (o : TurnOut Float) : Json :=
+  let t1j := jObj [("pops", jNat o.t1.pops), ("iters", jInt o.t1.iters), ("graphs_touched", jNat w.graphs.length)]
+  let t2j := jObj [("k_returned", jNat o.t2.retrieved.length), ("k_used", jNat o.t2.used.length),
+                   ("cache_hit", jBool o.orchHit)]
+  let t4j := jObj [("approved", jNat (match o.t4 with | some r => r.approved.length | none => 0)),
+                   ("rejected", jNat (match o.t4 with | some r => r.rejected.length | none => 0))]
+  match o.yielded with
+  | some (st, r) =>
+    baseRec echo t.turnId [("t1", t1j),
+      ("t2", match st with | .T1 => jObj [] | _ => t2j),
+      ("t4", match st with | .T4 => t4j | .Apply => t4j | _ => jObj []),
+      ("slice_idx", jInt (t.sliceIdxPrev + 1)), ("yielded", jBool true), ("yield_reason", jStr (reasonStr r))]
+  | none =>
+    -- (`slice_idx` / `yielded: false` of a completed slice are dropped by the identity normalisation of the turn stream)
+    baseRec echo t.turnId [("t1", t1j), ("t2", t2j), ("t4", t4j)]
+
 def turnRec (echo : Json) (turn : Int) (w : World Float) (o : TurnOut Float) : Json :=
   baseRec echo turn [
     ("t1", jObj [("pops", jNat o.t1.pops), ("iters", jInt o.t1.iters), ("graphs_touched", jNat w.graphs.length)]),
@@ -221,6 +300,26 @@ def turnRec (echo : Json) (turn : Int) (w : World Float) (o : TurnOut Float) : J
                  ("cache_hit", jBool o.orchHit)]),
     ("t4", jObj [("approved", jNat (match o.t4 with | some r => r.approved.length | none => 0)),
                  ("rejected", jNat (match o.t4 with | some r => r.rejected.length | none => 0))])]
+
+/-- the gel stream is not an identity log: its records keep `now` (`ctx.now`) -/
+def gelRec (echo : Json) (turn : Int) (body : List (String × Json)) : Json :=
+  jObj ([("turn", jInt turn), ("agent", fldD echo "agent" Json.null)] ++ body ++
+    (match fldD echo "gelNow" Json.null with | Json.null => [] | v => [("now", v)]))
+
+def gelRecs (echo : Json) (turn : Int) (c : Cfg Float) (o : TurnOut Float) : List Json :=
+  (match o.gelObs with
+   | some r => [gelRec echo turn [("event", jStr "observe_retrieval"), ("k_in", jNat r.kIn), ("k_used", jNat r.kUsed),
+                  ("pairs_updated", jNat r.pairsUpdated), ("threshold", jF c.gel.threshold),
+                  ("mode", fldD echo "gelMode" Json.null), ("alpha", jF c.gel.alpha)]]
+   | none => []) ++
+  (match o.gelTick with
+   | some r => [gelRec echo turn [("event", jStr "edge_decay"), ("decayed_edges", jNat r.decayed),
+                  ("dropped_edges", jNat r.dropped), ("half_life_turns", jF c.gel.hl), ("floor", jF c.gel.floor)]]
+   | none => []) ++
+  (match o.gelMaint with
+   | some (ma, mp, sa, sp, pp) => [gelRec echo turn [("merge_attempts", jNat ma), ("merge_applied", jNat mp),
+                  ("split_attempts", jNat sa), ("split_applied", jNat sp), ("promotion_applied", jNat pp)]]
+   | none => [])
 
 def jW (w : List ((Str × Str × Str) × Float)) : Json :=
   jArr (w.map (fun p => jArr [jArr [jS p.1.1, jS p.1.2.1, jS p.1.2.2], jF p.2]))
@@ -231,19 +330,32 @@ def jVer : Clem.Apply.Ver → Json
   | .junk => jStr "junk"
 
 def jTurn (echo : Json) (w : World Float) (c : Cfg Float) (t : TurnIn Float) (o : TurnOut Float) : Json :=
-  let turnEmitted := !(t.dryRun && c.t4Enabled)
+  let turnEmitted := o.yielded.isSome || !(t.dryRun && c.t4Enabled)
   jObj [
     ("logs", jObj [
       ("t1", jArr [t1Rec echo t.turnId w c o]),
-      ("t2", jArr [t2Rec echo t.turnId c o]),
+      ("t2", jArr (if o.t2Ran then [t2Rec echo t.turnId c o] else [])),
       ("t4", jArr (match o.t4 with | some r => [t4Rec echo t.turnId c r] | none => [])),
       ("apply", jArr (match o.apply with | some a => [applyRec echo t.turnId a] | none => [])),
-      ("turn", jArr (if turnEmitted then [turnRec echo t.turnId w o] else []))]),
+      ("turn", jArr (if turnEmitted then [turnRecY echo t w c o] else [])),
+      ("scheduler", jArr (schedRec echo t c o)),
+      ("t3_reflection", jArr (match o.refl.log with
+        | some l => [jObj [("turn", jInt t.turnId), ("agent", fldD echo "agent" Json.null),
+                           ("summary_len", jNat l.summaryLen), ("ops_written", jNat l.opsWritten),
+                           ("embed", jBool l.embed), ("backend", jStr (Driver.HRefl.ofStr l.backend)),
+                           ("reason", Driver.HRefl.jReason l.reason)]]
+        | none => [])),
+      ("gel", jArr (gelRecs echo t.turnId c o))]),
+    ("gel", Driver.HGel.jState o.state.gel),
     ("line", jS o.line),
     ("qText", jS o.qText),
     ("touched", jArr (o.touched.map jS)),
     ("oracleMiss", jBool o.oracleMiss),
     ("orchHit", jBool o.orchHit),
+    ("t2Ran", jBool o.t2Ran),
+    ("reflCalled", jBool o.refl.called), ("reflWritten", jArr (o.refl.written.map (fun x => jStr (Driver.HRefl.ofStr x.text)))),
+    ("memN", jNat o.state.memN),
+    ("yielded", match o.yielded with | some (st, r) => jArr [jStr (stageStr st), jStr (reasonStr r)] | none => Json.null),
     ("t3Ran", jBool o.t3Ran),
     ("ops", jArr (o.ops.map jOp)),
     ("requestedRetrieve", jBool o.requestedRetrieve),
@@ -312,6 +424,12 @@ def handleMon (j : Json) : R Json := do
     let scores ← arrMapM (← fldArr ob "scores") (fun x => do floatOfBits (← x.getStr?))
     let sMax ← fldFloat ob "sMax"
     pure (jBool (monBundleNodes (α := Float) deltaIds nodeIds && (npMax scores).toBits == sMax.toBits))
+  | "link.t2stats" =>
+    -- sim_stats of the t2 record are numpy's mean / max over the scores of `retrieved` in T2's final order
+    let scores ← arrMapM (← fldArr ob "scores") (fun x => do floatOfBits (← x.getStr?))
+    let mean ← fldFloat ob "simMeanRec"
+    let mx ← fldFloat ob "simMaxRec"
+    pure (jBool ((npMean scores).toBits == mean.toBits && (npMax scores).toBits == mx.toBits))
   | "link.handoff" =>
     let committed ← fldBool ob "committed"
     let keys ← strL ob "approvedKeys"
@@ -353,10 +471,10 @@ def handleMon (j : Json) : R Json := do
       let res ← strL ob "residual"
       pure (jBool (Clem.T2.monCount cfg hits && Clem.T2.monScope cfg hits && Clem.T2.monThreshold cfg hits &&
         Clem.T2.monTier cfg r.c.tiers eps hits && Clem.T2.monComplete cfg r.c.tiers eps hits &&
-        Clem.T2.monUsed none hits kUsed && Clem.T2.monResidual none r.c.residualCap (gnodes r.w) hits res))
+        Clem.T2.monUsed (t2K r.c) hits kUsed && Clem.T2.monResidual (t2K r.c) r.c.residualCap (gnodes r.w) hits res))
   | "c12.budget" =>
     let m ← fld ob "t1"
-    pure (jBool (t1BudgetOk r.c.t1 r.w.graphs.length (← fldNat m "pops") (← fldInt m "iters") (← fldNat m "props")))
+    pure (jBool (t1BudgetOk (t1Cfg r.c) r.w.graphs.length (← fldNat m "pops") (← fldInt m "iters") (← fldNat m "props")))
   | "link.plan" =>
     -- the plan the real planner produced is `deliberate` of the bundle the glue builds from the real T1/T2 results
     match fldD ob "ops0" Json.null with
@@ -401,7 +519,41 @@ def handleMon (j : Json) : R Json := do
         | Json.null => pure []
         | fj => arrMapM (← fj.getArr?) parseOp
       let utter := if t3 then utterOf r.c opsF else []
-      pure (jBool (line == (if t.dryRun && r.c.t4Enabled then utter else finalLine utter t.text)))
+      let yielded := (fldD ob "yielded" Json.null) != Json.null
+      pure (jBool (line == (if yielded then (match fldD ob "opsFinal" Json.null with | Json.null => [] | _ => utter)
+                            else if t.dryRun && r.c.t4Enabled then utter else finalLine utter t.text)))
+  | "c17.yield" =>
+    -- C17 on the real turn: the boundary the turn returned at (and the reason) is the first boundary whose decision
+    -- fires on the counters the REAL stages reported (logical clock: elapsed 0), and it satisfies the precedence table
+    match r.c.sched with
+    | none => pure (jBool ((fldD ob "yielded" Json.null) == Json.null))
+    | some b =>
+      let m ← fld ob "t1"
+      let c1 : Clem.Sched.Consumed := ⟨some 0, some (← fldInt m "iters"), some (← fldInt m "pops"), none, none⟩
+      let bl2 ← match fldD ob "kUsedStage" Json.null with
+        | Json.null => pure []
+        | k => do pure [(Clem.Sched.Stage.T2, (⟨some 0, none, none, some (← k.getInt?), none⟩ : Clem.Sched.Consumed))]
+      let bl3 ← match fldD ob "ops0" Json.null with
+        | Json.null => pure []
+        | oj => do
+          -- `len(plan.ops)` of the plan the planner (stock, or the hook: deliberate + appended ops) returned
+          let n : Int := ((← oj.getArr?).size : Int) + (if t.hook then (t.hookOps.length : Int) else 0)
+          pure [(Clem.Sched.Stage.T3, (⟨some 0, none, none, none, some n⟩ : Clem.Sched.Consumed))]
+      let bl4 := if r.c.t4Enabled && !t.dryRun then
+          [(Clem.Sched.Stage.T4, (⟨some 0, none, none, none, none⟩ : Clem.Sched.Consumed)),
+           (Clem.Sched.Stage.Apply, ⟨some 0, none, none, none, none⟩)] else []
+      let bl := [(Clem.Sched.Stage.T1, c1)] ++ bl2 ++ bl3 ++ bl4
+      let exp := Clem.Sched.firstYield b bl
+      let got : Option (String × String) ← match fldD ob "yielded" Json.null with
+        | Json.null => pure none
+        | y => do
+          let a ← y.getArr?
+          pure (some (← strAt a 0, ← strAt a 1))
+      let specOk := match exp with
+        | some (st, rs) => (match bl.find? (fun p => p.1 == st) with
+            | some p => Clem.Sched.yieldSpecB b p.2 (some rs) | none => false)
+        | none => true
+      pure (jBool (specOk && got == exp.map (fun p => (stageStr p.1, reasonStr p.2))))
   | "c13.plan" =>
     let qs ← strL ob "q"
     let okCalls := decide (qs.length ≤ 2)
